@@ -99,3 +99,13 @@ add("C31", "exploration", "vh",
     "exhaustive differential exploration of guard programs against the hidden-guard run under both cost models; nesting-depth boundary",
     "Every P5 guard program under both cost models is run on ChiaDialect and on the extension-hiding dialect: equal result means the guard yielded nil, equal final atom/pair/heap counts mean the guard left the counts as at its entry, equal cost means it consumed exactly its declared cost (not required for grandfathered extensions under NEW_COST_MODEL); guards nested 1,2,3,19,20,21,22 deep with and without LIMIT_SOFTFORK.",
     "Counts at guard entry are observed through the hidden-guard run (whose guard allocates nothing), not by sampling inside the run.")
+
+add("C23", "exploration", "vh",
+    "exhaustive small-scope tree enumeration, differential cost of two real evaluations",
+    "For every tree of TREES(6|7, {nil, 01, 32-byte}) and TREES(3|4, atom sizes 0..100000), list / spine / complete-tree families and single atoms up to 1 MiB, under both cost models: run_program cost of (sha256tree (q . X)) must be strictly below the cost of the standard ChiaLisp sha256tree program applied to X, with equal results.",
+    "The ChiaLisp program text is the one in tools/src/bin/sha256tree-benching.rs; trees beyond the scopes are not covered.")
+
+add("C30", "exploration", "vh",
+    "exhaustive differential exploration, RuntimeDialect vs ChiaDialect",
+    "The standard table is reconstructed as every opcode->op_* assignment of ChiaDialect::op whose name f_table::opcode_by_name knows, quote 1, apply 2. Every in-scope program of seven spaces x 7|20 flag sets is run on both dialects under budgets 0, C, C-1; result, cost and error string must be equal (ChiaDialect gets the flags minus ENABLE_GC and DISABLE_OP).",
+    "Scope filter is syntactic and conservative (any mention of 36, 48, 62-65 or a 4-byte secp opcode excludes the program). The 'standard table' is not shipped as a literal by the repository.")
